@@ -12,6 +12,16 @@ theorem nofault (r : Rbuf) (op : Op) (m : Mem) (h : r.Inv) : (r.step op m).2.2 =
 theorem history_nofault (ops : List Op) (r : Rbuf) (m : Mem) (h : r.Inv) : (r.run ops m).2.2 = m :=
   (C19.history_refines ops r m h).2.2.2
 
+theorem step_keeps_triple (r : Rbuf) (op : Op) (m : Mem) : (r.step op m).2.1.triple = r.triple := by
+  cases op with
+  | enqueue x => simp [Rbuf.step, Rbuf.enqueue]
+  | dequeue => simp only [Rbuf.step, Rbuf.dequeue]; split <;> rfl
+
+theorem run_keeps_triple (ops : List Op) (r : Rbuf) (m : Mem) : (r.run ops m).2.1.triple = r.triple := by
+  induction ops generalizing r m with
+  | nil => rfl
+  | cons op ops ih => simp only [Rbuf.run]; rw [ih, step_keeps_triple]
+
 /-- construct, run any history, destroy: every block released exactly once, nothing faults —
 for every refusal schedule of the constructor -/
 theorem destroy_releases_all (cap : Nat) (hc : 0 < cap) (m0 : Mem) (ops : List Op) :
@@ -28,6 +38,7 @@ theorem destroy_releases_all (cap : Nat) (hc : 0 < cap) (m0 : Mem) (ops : List O
     rw [← hst, ← hr]
   have hinv := (Rbuf.new_ok cap m0 r _ hc hnew).1
   rw [history_nofault ops r _ hinv]
+  simp only [Rbuf.destroy, run_keeps_triple]
   simpa [Rbuf.destroy] using hl.2
 
 end CC.Properties.C06Rbuf
